@@ -226,7 +226,8 @@ check("C20", "other",
       "z3 decides each path's postcondition; witnesses replayed end to end through the real scrut binary", "E2", "DESIGN.md §3 C20")
 
 check("C18", "other",
-      "Partial: `scrut test`. On the MIR of the whole commands::test::Args::run with the real TestEnvironment / UniqueNamer code and a ledger in "
+      "Partial: `scrut test` and `scrut update`. On the MIR of the whole commands::test::Args::run (and, with the generators, the change preview, the overwrite "
+      "question and the file write stubbed, commands::update::Args::run: 8 outcome kinds per document incl. no test cases / prepend / declined overwrite / generator error) with the real TestEnvironment / UniqueNamer code and a ledger in "
       "place of tempfile / std::fs (creation, into_path, exists and — through the MIR's executed drop statements — removal are tracked per "
       "path): at every executor call the work and temporary directory exist and the work directory is not shared with another document "
       "(or is the given --work-directory); every test case carries TESTDIR, TESTFILE, TESTSHELL, TMPDIR and the documented locale / terminal "
@@ -238,7 +239,7 @@ check("C18", "other",
       "probed on a real process under a polluted parent environment. 1 document with 1..2/3 test cases "
       "(every executor result shape), 2 and 3 documents (also identical file names); the three admissible flag combinations. Witnesses and a "
       "sample of configurations run through the real binary with probe commands and a private $TMPDIR. Parse errors before the loop, panics / "
-      "signals, several scrut processes at once, the update / create commands and the real file system are not claimed.",
+      "signals, several scrut processes at once, the create command and the real file system (beyond a document given by a symbolic link) are not claimed.",
       E2_NOTE + " tempfile::TempDir is replaced by its documented contract (create / drop removes the tree / into_path keeps it).",
       "bounded symbolic execution of the MIR of commands::test::Args::run (bin crate) with the real environment code over a file-system ledger "
       "driven by the MIR's drop statements; z3 decides each path's postcondition; witnesses replayed through the real scrut binary", "E2", "DESIGN.md §3 C18")
